@@ -288,6 +288,23 @@ def step (w : World) (line : String) : World × String :=
        let w1 := w.setSlot s (.mp { segs := [] })
        (w1, s!"ok ## {live w1}")
      | _ => bad)
+  | ["mdin", s, b] =>
+    -- mempool_destroy(&handle) with the handle stored inside block b of the pool: where the handle
+    -- lives makes no difference, every segment goes back exactly once
+    (match num s, num b with
+     | some s, some b =>
+       (match w.slot s, w.blk b with
+        | some (.mp _), some blk =>
+          if blk.slot != s || blk.len < 8 then bad else
+          let w1 := destroyW w s
+          (w1, s!"{live w1} ct=1 ## -")
+        | _, _ => bad)
+     | _, _ => bad)
+  | ["rx", reps, mis] =>
+    -- regcomp/regexec/regfree of the internal regex: all mempool blocks are back afterwards
+    (match num reps, num mis with
+     | some reps, some _ => if reps > 5000 then bad else (w, s!"ok ## {live w}")
+     | _, _ => bad)
   | ["ma", s, b, size, mis] =>
     (match num s, num b, num size, num mis with
      | some s, some b, some size, some mis =>
